@@ -482,6 +482,12 @@ static void part_int_garbage() {
       "0xg", "0x5g", "12a", "a12", "1 2", "5,", ",5", "5_000", "1'000", "0b101", "0o17", "5u", "5L", "5ll", "0x5p1", "#5", "$5", "5%", "(5)",
       "\xd9\xa1", "\xef\xbc\x95", "5\xc2\xa0", "-0x", "-0x-1", "0x0x1", "00x1", "0xx1", "x10", "h10", "10h", "0x 1", "1-1", "1+1", "-",
       "--", "-+5", "0-5", "0..", ".", ".5", "5.", "e", "E5", "true", "nan", "inf", "ten", "0,5"};
+  // bytes >= 0x80 at every place of a numeral: UTF-8 sequences of 2/3/4 bytes, lone continuation / lead bytes, 0x80, 0xFF,
+  // NBSP (a blank in some tables).  None is a digit of any base; the recogniser rejects them like any other garbage.
+  for (const char* u : {"\xc3\xa9", "\xe2\x82\xac", "\xf0\x9f\x98\x80", "\xa9", "\xc3", "\x80", "\xff", "\xc2\xa0", "\xa0", "\xef\xbc\x95"}) {
+    string hu(u);
+    for (const string& t : {hu, hu + "5", "5" + hu, "1" + hu + "2", "0x" + hu, "0x1" + hu, "-" + hu + "5", "-5" + hu, "0" + hu + "7"}) g.push_back(t);
+  }
   // numerals far beyond 128 bits (recogniser saturates; all are valid numerals that fit nothing)
   g.push_back(string(40, '9'));
   g.push_back("-" + string(40, '9'));
@@ -627,6 +633,12 @@ static string show_tokens(const vector<string>& toks) {
 }
 
 static unique_ptr<Arguments> make_args(const vector<string>& toks, unsigned ctor) {
+  if (ctor == 3) {
+    // one-string form; only for token lists whose tokens need no quoting (no blanks, quotes, backslashes, not empty)
+    string line;
+    for (size_t i = 0; i < toks.size(); i++) line += (i ? ((i & 1) ? " " : "\t ") : "") + toks[i];
+    return unique_ptr<Arguments>(new Arguments(line));
+  }
   switch (ctor % 3) {
     case 0: return unique_ptr<Arguments>(new Arguments(toks));
     case 1: {
@@ -641,7 +653,7 @@ static unique_ptr<Arguments> make_args(const vector<string>& toks, unsigned ctor
     }
   }
 }
-static const char* CTOR_NAMES[3] = {"const-vector&", "vector&&", "argv,n"};
+static const char* CTOR_NAMES[4] = {"const-vector&", "vector&&", "argv,n", "one-string(tokens joined by blanks)"};
 
 // Observe a through its public getters and compare with ref.  `extra_names`: names that must be absent.
 // Ends with assert_none_unused() which must be silent (everything predicted was read => nothing else exists).
@@ -685,7 +697,67 @@ static const vector<string> GRAMMAR = {"a", "-", "--", "-x", "-xy", "--k", "--k=
 static const vector<string> GRAMMAR_DASHES = {"---", "----", "-----", "---=v", "---a", "--- ", "a", "--", "-", "-x", "--k=v"};
 static const vector<string> CANDIDATE_NAMES = {"k", "", "x", "y", "v", "a", "k=v", "k=", "=v", "-", "--k", "-x", "xy", "=", "-k", "--", "k=v=", "-xy", "-k=v", "---", "-a", "- ", "-=v", "----", " ", "-----"};
 
-static void part_tokens(const vector<string>& G, int maxlen, const char* tag) {
+// ---- byte alphabet: tokens are byte strings; bytes >= 0x80 (any UTF-8 text) are ordinary token characters ----
+static bool has_high(const string& t) {
+  for (unsigned char ch : t)
+    if (ch >= 0x80) return true;
+  return false;
+}
+// Names an option/flag name with high bytes could degrade to when bytes are dropped, masked, or the text is cut at
+// them (none of these may exist unless a token really defines it).
+static void add_derived_names(const string& name, vector<string>& out) {
+  if (!has_high(name)) return;
+  string stripped, masked, marked;
+  size_t first = string::npos, last = 0;
+  for (size_t i = 0; i < name.size(); i++) {
+    unsigned char ch = (unsigned char)name[i];
+    if (ch >= 0x80) {
+      if (first == string::npos) first = i;
+      last = i;
+      masked.push_back((char)(ch & 0x7F));
+      marked.push_back('?');
+      out.push_back(string(1, name[i]));
+    } else {
+      stripped.push_back(name[i]);
+      masked.push_back(name[i]);
+      marked.push_back(name[i]);
+    }
+  }
+  out.push_back(stripped);
+  out.push_back(masked);
+  out.push_back(marked);
+  out.push_back(name.substr(0, first));
+  out.push_back(name.substr(0, first + 1));
+  out.push_back(name.substr(last + 1));
+  out.push_back(name.substr(last));
+}
+static vector<string> candidate_names_for(const RefArgs& ref) {
+  vector<string> c = CANDIDATE_NAMES;
+  for (auto& kv : ref.named) add_derived_names(kv.first, c);
+  return c;
+}
+// shape of the high bytes of a token: which kinds of units occur
+static void high_units(const string& t, set<string>& kinds) {
+  for (size_t i = 0; i < t.size();) {
+    unsigned char ch = (unsigned char)t[i];
+    if (ch < 0x80) {
+      i++;
+      continue;
+    }
+    size_t need = (ch >= 0xC2 && ch <= 0xDF) ? 1 : (ch >= 0xE0 && ch <= 0xEF) ? 2 : (ch >= 0xF0 && ch <= 0xF4) ? 3 : 0;
+    bool ok = need > 0;
+    for (size_t k = 1; ok && k <= need; k++) ok = i + k < t.size() && ((unsigned char)t[i + k] & 0xC0) == 0x80;
+    if (ok) {
+      kinds.insert(fmt("utf8-%zu", need + 1));
+      i += need + 1;
+    } else {
+      kinds.insert(ch == 0x80 ? "0x80" : ch == 0xFF ? "0xff" : (ch & 0xC0) == 0x80 ? "lone-continuation" : ch >= 0xC2 && ch <= 0xF4 ? "lone-lead" : "other-invalid");
+      i++;
+    }
+  }
+}
+
+static void part_tokens(const vector<string>& G, int maxlen, const char* tag, unsigned nctor = 3) {
   const uint64_t NG = G.size();
   uint64_t idx = 0, subsets = 0, lists = 0;
   size_t maxgroups = 0;
@@ -707,10 +779,10 @@ static void part_tokens(const vector<string>& G, int maxlen, const char* tag) {
       {
         C->crumb_s("classify " + kase);
         C->evaluations++;
-        unsigned ctor = (unsigned)(idx % 3);
+        unsigned ctor = (unsigned)(idx % nctor);
         auto a = make_args(toks, ctor);
         try {
-          observe_classification(*a, ref, CANDIDATE_NAMES, kase + " ctor=" + CTOR_NAMES[ctor], "classify");
+          observe_classification(*a, ref, candidate_names_for(ref), kase + " ctor=" + CTOR_NAMES[ctor], "classify");
         } catch (const std::exception& e) {
           C->violation("classify:getter-threw", string("a getter threw unexpectedly: ") + e.what(), kase);
         }
@@ -721,7 +793,7 @@ static void part_tokens(const vector<string>& G, int maxlen, const char* tag) {
       for (uint32_t mask = 0; mask < (1u << g); mask++) {
         C->evaluations++;
         subsets++;
-        unsigned ctor = (unsigned)((idx + mask) % 3);
+        unsigned ctor = (unsigned)((idx + mask) % nctor);
         C->crumb_s(fmt("subset mask=%u ", mask) + kase);
         auto a = make_args(toks, ctor);
         string reads;
@@ -789,6 +861,127 @@ static void part_tokens(const vector<string>& G, int maxlen, const char* tag) {
   C->count(string(tag) + "_lists", lists);
   C->count(string(tag) + "_getter_subsets", subsets);
   C->cls(fmt("%s:maxgroups%zu", tag, maxgroups));
+}
+
+// Token grammar over bytes >= 0x80: positionals, option names, option values made of UTF-8 text and of invalid bytes.
+// "--caf" sits next to "--caf\xc3\xa9" so that a name that loses its last letter collides visibly.  All tokens need no
+// quoting, so the fourth constructor form (one string, tokens joined by blanks) takes part in the rotation.
+static const vector<string> GRAMMAR_BYTES = {"Zo\xc3\xab", "\xff", "--caf\xc3\xa9", "--caf\xc3\xa9=cr\xc3\xa8me", "--caf", "--k=\xe2\x82\xac" "5",
+    "--\xa9=\x80", "\x80-x", "-x", "--\xc3\xa9="};
+
+// Flag groups that contain bytes >= 0x80.  Whether a multi-byte UTF-8 letter is ONE "single-letter flag" or each of its
+// bytes is, the statement does not say; judged is only what holds under every reading:
+//  * the ASCII letters of the group are flags (get<bool> true);
+//  * the high bytes are classified as SOMETHING: at least one of {each byte, each maximal run of high bytes, each UTF-8
+//    unit, the whole group text} exists as an option name;
+//  * exactly once: with everything read except those candidates assert_none_unused() throws invalid_argument, with those
+//    read as well it is silent;
+//  * the one-string form and the token-list form agree.
+static void part_flagbytes() {
+  const vector<string> U = {"v", "q", "\xc3\xa9", "\xff", "\x80", "\xe2\x82\xac", "\xa9", "\xf0\x9f\x98\x80"};
+  const size_t NU = U.size();
+  uint64_t idx = 0, groups = 0;
+  for (int len = 1; len <= 3; len++) {
+    uint64_t count = 1;
+    for (int i = 0; i < len; i++) count *= NU;
+    for (uint64_t code = 0; code < count; code++) {
+      vector<string> units;
+      uint64_t c = code;
+      for (int i = 0; i < len; i++) {
+        units.push_back(U[c % NU]);
+        c /= NU;
+      }
+      string g;
+      for (auto& u : units) g += u;
+      if (!has_high(g)) continue;
+      for (int context = 0; context < 3; context++, idx++) {
+        if (!C->mine(idx)) continue;
+        vector<string> toks;
+        if (context == 1) toks = {"pos0", "-" + g, "--k=v"};
+        else if (context == 2) toks = {"--caf\xc3\xa9=1", "-" + g, "Zo\xc3\xab"};
+        else toks = {"-" + g};
+        string kase = "tokens=" + show_tokens(toks);
+        groups++;
+        // candidates for the name(s) the high bytes are classified under
+        set<string> cand;
+        cand.insert(g);
+        for (auto& u : units)
+          if (has_high(u)) cand.insert(u);
+        string run;
+        for (size_t i = 0; i <= g.size(); i++) {
+          if (i < g.size() && (unsigned char)g[i] >= 0x80) {
+            cand.insert(string(1, g[i]));
+            run.push_back(g[i]);
+          } else if (!run.empty()) {
+            cand.insert(run);
+            run.clear();
+          }
+        }
+        set<string> letters;
+        for (char ch : g)
+          if ((unsigned char)ch < 0x80) letters.insert(string(1, ch));
+        vector<vector<pair<string, string>>> seen(2);
+        for (int form = 0; form < 2; form++) {
+          const char* fname = form == 0 ? "token-list" : "one-string";
+          unsigned ctor = form == 0 ? (unsigned)(idx % 3) : 3;
+          string k2 = kase + " form=" + CTOR_NAMES[ctor];
+          C->crumb_s("flagbytes " + k2);
+          C->evaluations++;
+          try {
+            auto read_rest = [&](Arguments& a) {
+              if (context == 1) {
+                (void)a.get<string>(0);
+                (void)a.get<string>("k");
+              } else if (context == 2) {
+                (void)a.get<string>(0);
+                (void)a.get<string>("caf\xc3\xa9");
+              }
+              for (auto& l : letters) (void)a.get_multi<string>(l);
+            };
+            auto a = make_args(toks, ctor);
+            for (auto& l : letters) {
+              size_t want = (size_t)std::count(g.begin(), g.end(), l[0]), have = a->get_multi<string>(l).size();
+              if (have != want)
+                C->violation(fmt("flag-hi:ascii-flag-lost:%s", fname), "ASCII letter '" + l + fmt("' occurs %zu time(s) in a flag group that also contains bytes >= 0x80 but the flag is present %zu time(s)", want, have), k2);
+              if (want == 1 && !a->get<bool>(l.c_str())) C->violation(fmt("flag-hi:ascii-flag-lost:%s", fname), "get<bool>('" + l + "') is false for a flag given once", k2);
+            }
+            size_t present = 0;
+            for (auto& n : cand) {
+              size_t k = a->get_multi<string>(n).size();
+              present += k;
+              seen[form].emplace_back("candidate", "get_multi(\"" + vf::json_escape(n) + "\").size() = " + to_string(k));
+            }
+            if (!present) C->violation(fmt("flag-hi:high-byte-flag-dropped:%s", fname), "the bytes >= 0x80 of a flag group are not classified under any name (each byte, each run of high bytes, each UTF-8 unit, the whole group)", k2);
+            auto b = make_args(toks, ctor);
+            read_rest(*b);
+            string o1 = outcome_of([&]() { b->assert_none_unused(); return true; });
+            if (o1 != "invalid_argument")
+              C->violation(fmt("flag-hi:unread-high-byte-flag-not-reported:%s", fname), "everything was read except the flag(s) spelled with bytes >= 0x80, assert_none_unused() must throw invalid_argument but: " + o1, k2);
+            for (auto& n : cand) (void)b->get_multi<string>(n);
+            string o2 = outcome_of([&]() { b->assert_none_unused(); return true; });
+            if (o2 != "ret:true")
+              C->violation(fmt("flag-hi:not-exactly-once:%s", fname), "everything incl. every candidate name for the high bytes was read, assert_none_unused() must be silent but: " + o2, k2);
+            seen[form].emplace_back("unused", o1 + "/" + o2);
+          } catch (const std::exception& e) {
+            C->violation(fmt("flag-hi:getter-threw:%s", fname), e.what(), k2);
+          }
+        }
+        if (seen[0] != seen[1]) {
+          string d;
+          for (size_t i = 0; i < seen[0].size() && i < seen[1].size(); i++)
+            if (seen[0][i] != seen[1][i]) {
+              d = "token list: " + seen[0][i].second + "; one string: " + seen[1][i].second;
+              break;
+            }
+          C->violation("forms:one-string-differs-from-token-list:flag-group", "the two forms of the same command line behave differently: " + d, kase);
+        }
+        set<string> kinds;
+        high_units(g, kinds);
+        for (auto& k : kinds) C->cls(fmt("flag-hi:%s:%s:ctx%d", k.c_str(), letters.empty() ? "only-high" : "with-letters", context));
+      }
+    }
+  }
+  C->count("flag_groups_with_high_bytes", groups);
 }
 
 // typed getters mark arguments used; get_multi over repeated numeric options
@@ -1394,11 +1587,119 @@ static bool clean_token(const string& t) {
   return t.size() >= 3 && t[2] != '-' && t[2] != '=';
 }
 
+// Everything observable about an Arguments object for a given reference classification, as (kind, text) pairs.
+// Used to require that the one-string form and the token-list form of the same command line are indistinguishable.
+static vector<pair<string, string>> observe_all(const std::function<unique_ptr<Arguments>()>& make, const RefArgs& ref, const vector<string>& names) {
+  vector<pair<string, string>> o;
+  {
+    auto a = make();
+    o.emplace_back("unused", "fresh: assert_none_unused -> " + outcome_of([&]() { a->assert_none_unused(); return true; }));
+  }
+  auto a = make();
+  for (size_t i = 0; i <= ref.pos.size() + 1; i++) {
+    o.emplace_back("positional", fmt("get<string>(%zu) -> ", i) + outcome_of([&]() { return a->get<string>(i); }));
+    o.emplace_back("typed", fmt("get<int32_t>(%zu) -> ", i) + outcome_of([&]() { return a->get<int32_t>(i); }));
+    o.emplace_back("typed", fmt("get<uint64_t>(%zu,HEX) -> ", i) + outcome_of([&]() { return a->get<uint64_t>(i, IF::HEX); }));
+    o.emplace_back("typed", fmt("get<double>(%zu) -> ", i) + outcome_of([&]() { return a->get<double>(i); }));
+  }
+  for (auto& nm : names) o.emplace_back("named", "get_multi<string>(\"" + nm + "\") -> " + outcome_of([&]() { return a->get_multi<string>(nm); }));
+  for (auto& kv : ref.named) {
+    const string& nm = kv.first;
+    o.emplace_back("typed", "get<int32_t>(\"" + nm + "\",7) -> " + outcome_of([&]() { return a->get<int32_t>(nm, (int32_t)7); }));
+    o.emplace_back("typed", "get<double>(\"" + nm + "\",2.5) -> " + outcome_of([&]() { return a->get<double>(nm, 2.5); }));
+  }
+  o.emplace_back("unused", "after reading everything: assert_none_unused -> " + outcome_of([&]() { a->assert_none_unused(); return true; }));
+  return o;
+}
+
+static void forms_agree(const string& cmd, const vector<string>& toks, const RefArgs& ref, const vector<string>& names, const string& kase) {
+  vector<pair<string, string>> o1, o2;
+  try {
+    o1 = observe_all([&]() { return unique_ptr<Arguments>(new Arguments(cmd)); }, ref, names);
+    o2 = observe_all([&]() { return unique_ptr<Arguments>(new Arguments(toks)); }, ref, names);
+  } catch (const std::exception& e) {
+    C->violation("forms:ctor-threw", e.what(), kase);
+    return;
+  }
+  for (size_t i = 0; i < o1.size() && i < o2.size(); i++)
+    if (o1[i].second != o2[i].second) {
+      C->violation("forms:one-string-differs-from-token-list:" + o1[i].first,
+          "Arguments(one string) and Arguments(token list) of the same command line behave differently: one-string: " + o1[i].second + "; token list: " + o2[i].second, kase);
+      return;
+    }
+}
+
+// A token text with a byte >= 0x80 is never a numeral or a floating-point literal: every typed getter must throw
+// invalid_argument (the argument is present, so neither out_of_range nor a default).
+static void typed_reject(Arguments& a, bool positional, size_t index, const string& name, const string& text, const char* form, const string& kase) {
+  vector<pair<const char*, string>> r;
+  if (positional) {
+    r.emplace_back("int", outcome_of([&]() { return a.get<int32_t>(index); }));
+    r.emplace_back("int", outcome_of([&]() { return a.get<uint64_t>(index, IF::HEX); }));
+    r.emplace_back("int", outcome_of([&]() { return a.get<int8_t>(index, (int8_t)7, IF::DECIMAL); }));
+    r.emplace_back("int", outcome_of([&]() { return a.get<uint16_t>(index, IF::OCTAL); }));
+    r.emplace_back("float", outcome_of([&]() { return a.get<double>(index); }));
+    r.emplace_back("float", outcome_of([&]() { return a.get<float>(index, 2.5f); }));
+  } else {
+    r.emplace_back("int", outcome_of([&]() { return a.get<int32_t>(name); }));
+    r.emplace_back("int", outcome_of([&]() { return a.get<int64_t>(name, IF::HEX); }));
+    r.emplace_back("int", outcome_of([&]() { return a.get<uint8_t>(name, (uint8_t)7, IF::DECIMAL); }));
+    r.emplace_back("int", outcome_of([&]() { return a.get<int16_t>(name, IF::OCTAL); }));
+    r.emplace_back("float", outcome_of([&]() { return a.get<double>(name); }));
+    r.emplace_back("float", outcome_of([&]() { return a.get<float>(name, 2.5f); }));
+  }
+  for (size_t i = 0; i < r.size(); i++) {
+    C->evaluations++;
+    if (r[i].second == "invalid_argument") continue;
+    string k2 = kase + fmt(" %s text=\"%s\" typed getter #%zu (%s) -> ", positional ? fmt("positional %zu", index).c_str() : ("option " + vf::json_escape(name)).c_str(), vf::json_escape(text).c_str(), i, r[i].first) + r[i].second;
+    if (r[i].second.compare(0, 4, "ret:") == 0)
+      C->violation(fmt("%s:high-byte:%s", !strcmp(r[i].first, "int") ? "int:accepted-not-a-numeral" : "float:accepted-garbage", form), "text contains a byte >= 0x80, so it is not a complete numeral/literal, but the typed getter returned", k2);
+    else
+      C->violation(fmt("typed:wrong-exception:high-byte:%s", form), "argument is present and not a numeral: must throw invalid_argument", k2);
+  }
+}
+
+// where the bytes >= 0x80 of a command line sit syntactically (the line is inside the unambiguous subset)
+static void high_contexts(const string& cmd, set<string>& ctx, set<string>& adj) {
+  char q = 0;
+  for (size_t z = 0; z < cmd.size(); z++) {
+    unsigned char ch = (unsigned char)cmd[z];
+    bool escaped = false;
+    if (q == 0 && ch == '\\') {
+      z++;
+      escaped = true;
+    } else if (q == '"' && ch == '\\') {
+      z++;
+      continue;
+    } else if (q == 0 && (ch == '"' || ch == '\'')) {
+      q = (char)ch;
+      continue;
+    } else if (q && ch == (unsigned char)q) {
+      q = 0;
+      continue;
+    }
+    if (z >= cmd.size()) break;
+    ch = (unsigned char)cmd[z];
+    if (ch < 0x80) continue;
+    ctx.insert(escaped ? "bs" : q == '"' ? "dq" : q == '\'' ? "sq" : "bare");
+    size_t b = escaped ? z - 1 : z;
+    if (b == 0) adj.insert("line-start");
+    else if (cmd[b - 1] == ' ' || cmd[b - 1] == '\t') adj.insert("after-blank");
+    else if (cmd[b - 1] == '"' || cmd[b - 1] == '\'') adj.insert("after-quote");
+    else if ((unsigned char)cmd[b - 1] >= 0x80) adj.insert("after-high-byte");
+    if (z + 1 == cmd.size()) adj.insert("line-end");
+    else if (cmd[z + 1] == ' ' || cmd[z + 1] == '\t') adj.insert("before-blank");
+    else if (cmd[z + 1] == '"' || cmd[z + 1] == '\'') adj.insert("before-quote");
+    else if (cmd[z + 1] == '\\') adj.insert("before-backslash");
+  }
+}
+
 static void cmdline_case(const string& cmd, const vector<string>& expect, uint64_t idx) {
   C->crumb_s("cmdline " + cmd);
   C->evaluations++;
   string kase = "cmdline=\"" + vf::json_escape(cmd) + "\" shlex=" + show_tokens(expect);
   vector<string> got;
+  const bool hi = has_high(cmd);
   try {
     got = phosg::split_args(cmd);
   } catch (const std::exception& e) {
@@ -1406,14 +1707,44 @@ static void cmdline_case(const string& cmd, const vector<string>& expect, uint64
     return;
   }
   if (got != expect) {
-    C->violation(got.size() != expect.size() ? "cmdline:token-count" : "cmdline:token-text", "split_args differs from shlex.split: got " + show_tokens(got), kase);
+    C->violation(fmt("cmdline:token-%s%s", got.size() != expect.size() ? "count" : "text", hi ? ":high-byte" : ""), "split_args differs from shlex.split: got " + show_tokens(got), kase);
   }
   bool clean = true;
   for (auto& t : expect) clean &= clean_token(t);
   bool q = cmd.find('"') != string::npos, sq = cmd.find('\'') != string::npos, bs = cmd.find('\\') != string::npos, tab = cmd.find('\t') != string::npos;
   C->cls(fmt("cmdline:%s%s%s%s:%s:%s", q ? "dq" : "", sq ? "sq" : "", bs ? "bs" : "", (q || sq || bs) ? "" : "bare", tab ? "tab" : "sp", expect.size() == 0 ? "0tok" : expect.size() == 1 ? "1tok" : "ntok"));
+  RefArgs ref = classify(expect);
+  vector<string> names = candidate_names_for(ref);
+  if (hi) {
+    // coverage: unit kinds, syntactic contexts, token roles
+    set<string> units, ctx, adj, roles;
+    for (auto& t : expect) {
+      if (!has_high(t)) continue;
+      high_units(t, units);
+      if (t.size() >= 2 && t[0] == '-' && t[1] != '-') roles.insert("flag-group");
+      else if (t.size() >= 3 && t[0] == '-' && t[1] == '-') {
+        size_t eq = t.find('=', 2);
+        if (has_high(t.substr(2, eq == string::npos ? string::npos : eq - 2))) roles.insert("option-name");
+        if (eq != string::npos && has_high(t.substr(eq + 1))) roles.insert("option-value");
+      } else
+        roles.insert("positional");
+    }
+    high_contexts(cmd, ctx, adj);
+    for (auto& u : units)
+      for (auto& k : ctx) C->cls("cmdline-hi:unit:" + u + ":" + k);
+    for (auto& k : adj) C->cls("cmdline-hi:adjacent:" + k);
+    for (auto& r : roles)
+      for (auto& k : ctx) C->cls("cmdline-hi:role:" + r + ":" + k);
+    C->count("cmdlines_with_high_bytes", 1);
+  }
+  // the one-string form and the token-list form of the same command line must be indistinguishable (judged for every
+  // line: even where the three classes are debatable, both forms go through the same classification)
+  for (auto& kv : ref.named) names.push_back(kv.first);
+  forms_agree(cmd, expect, ref, names, kase);
+  for (size_t i = 0; i < ref.named.size(); i++) names.pop_back();
   if (!clean) {
     C->count("cmdline_tokens_not_classified", 1);
+    if (hi) C->count("cmdline_hi_flag_group_not_classified", 1);
     // still must construct without crashing
     try {
       Arguments a(cmd);
@@ -1425,8 +1756,17 @@ static void cmdline_case(const string& cmd, const vector<string>& expect, uint64
   (void)idx;
   try {
     Arguments a(cmd);
-    RefArgs ref = classify(expect);
-    observe_classification(a, ref, CANDIDATE_NAMES, kase, "cmdline-classify");
+    observe_classification(a, ref, names, kase, "cmdline-classify");
+    if (hi) {
+      for (int form = 0; form < 2; form++) {
+        unique_ptr<Arguments> b(form == 0 ? new Arguments(cmd) : new Arguments(expect));
+        const char* fname = form == 0 ? "one-string" : "token-list";
+        for (size_t i = 0; i < ref.pos.size(); i++)
+          if (has_high(ref.pos[i])) typed_reject(*b, true, i, "", ref.pos[i], fname, kase);
+        for (auto& kv : ref.named)
+          if (kv.second.size() == 1 && has_high(kv.second[0])) typed_reject(*b, false, 0, kv.first, kv.second[0], fname, kase);
+      }
+    }
   } catch (const std::exception& e) {
     C->violation("cmdline:ctor-threw", e.what(), kase);
   }
@@ -1491,6 +1831,8 @@ int main(int argc, char** argv) {
   if (want("absent") && c.mine(3)) part_absent();
   if (want("tokens")) part_tokens(GRAMMAR, 5, "tokens");
   if (want("dashes")) part_tokens(GRAMMAR_DASHES, 4, "dashes");
+  if (want("bytes")) part_tokens(GRAMMAR_BYTES, 4, "bytes", 4);
+  if (want("flagbytes")) part_flagbytes();
   if (want("multi")) part_multi(r);
   if (want("history")) part_history(r);
   if (want("repeated")) part_repeated();
